@@ -74,9 +74,10 @@ CLAIMED = {
   'text': 'Partial (literals, character classes, layout). Verus proves on the real lexer bodies: the name/digit/whitespace character classes equal grammar rules 28-30 and 61-62; white space and any number of comments '
           'are skipped before a token (read_input ends at a non-layout character; consecutive comments included); consume_digits returns the maximal digit run; \\uXXXX / \\UXXXXXX escapes have their hexadecimal value; '
           'consume_unicode yields exactly the denoted scalar value for every 4-hex, 6-hex and surrogate-pair escape (UTF-8 assembly proved with bit-vector lemmas against RFC 3629) and errors otherwise; '
-          'consume_string returns exactly the code points the literal denotes (all escape forms) and accepts every well-formed literal. Precedence/associativity are NOT decided.',
+          'consume_string returns exactly the code points the literal denotes (all escape forms) and accepts every well-formed literal. Precedence / associativity (data in the LALR tables and the driver\'s table lookups) only BOUNDED: '
+          'every ordered pair and triple of 15 operators, fully vs minimally parenthesised renderings through the real parser, minimal parentheses computed from feel.y\'s precedence declarations.',
   'design_ref': 'DESIGN.md section 5 (C06)',
-  'note': 'Trusted: Verus/Z3; String::from_utf8 = RFC 3629 decoding (stub); char classification std specs. Not decided: LALR tables and reduce actions (operator precedence, associativity), keyword/number tokenisation, names.',
+  'note': 'Trusted: Verus/Z3; String::from_utf8 = RFC 3629 decoding (stub); char classification std specs. Not decided beyond the bounded pairs / triples: LALR tables; reduce actions (which node is built); keyword / number tokenisation.',
  },
  'C03': {
   'text': 'Partial. Verus proves on the real bodies of decision_table.rs, for all tables (any number of rules/outputs, any match pattern): a rule matches exactly when every input-entry evaluator yields true; '
@@ -102,11 +103,12 @@ CLAIMED = {
   'note': 'Trusted: Verus/Z3; evaluators/scopes opaque; closure lifting R4 ties each closure to the builder name / typeRef literal it sits under. A-item: the nested item definition evaluators are uninterpreted. Not decided: dispatch match arms, where coercion is applied.',
  },
  'C18': {
-  'text': 'Partial (definitions endpoints only). Verus proves on the real handler bodies that clear/add/replace/remove/deploy perform exactly the workspace operation the endpoint names on the model decoded from the request '
-          '(replace substitutes the stored model), report the workspace operation\'s failure as an error, and leave the workspace unchanged on every malformed-request path (missing content, invalid base64, invalid UTF-8, '
-          'unparsable model); together with the workspace representation invariant of C17.',
+  'text': 'Partial. Proof: Verus proves on the real handler bodies that clear/add/replace/remove/deploy perform exactly the workspace operation the endpoint names on the model decoded from the request (replace substitutes the stored model), '
+          'report the workspace operation\'s failure as an error, and leave the workspace unchanged on every malformed-request path (missing content, invalid base64, invalid UTF-8, unparsable model); together with the workspace representation '
+          'invariant of C17. BOUNDED (not proofs, real code through the replay driver): the /evaluate body {"data": jsonify(value)} is a JSON document that decodes to the value, and value -> TCK DTO -> JSON (serde_json) -> DTO -> value is the identity, '
+          'on a grid of 671 values of every TCK kind nested to depth 2.',
   'design_ref': 'DESIGN.md section 5 (C18)',
-  'note': 'Not decided: well-formedness of the JSON text (jsonify / serde: string code; strings are not escaped - a defect this family cannot decide), TCK DTO round trip (pending), actix routing, body limits, lock poisoning, survival after malformed requests.',
+  'note': 'Not decided: dto.rs / jsonify beyond the bounded grids (string code), actix routing, body limits, lock poisoning, survival after malformed requests, values without a JSON rendering (functions, ranges, Infinity / NaN).',
  },
  'C13': {
   'text': 'Partial (scope half). Verus proves on the real bodies that every evaluator closure / function that pushes a temporary context returns with the caller\'s stack of contexts exactly as it found it '
